@@ -24,6 +24,8 @@ MUTS = {
     old="\t\t\t\tif pg.GetLSN() < logRecord.GetLSN() {\n\t\t\t\t\tpg.ApplyDelete(", new="\t\t\t\tif pg.GetLSN() <= logRecord.GetLSN()+1 {\n\t\t\t\t\tpg.ApplyDelete("),
  "skip-key-revalidation-point-scan": dict(file="execution/executors/point_scan_with_index_executor.go", props=["C04"],
     old="\t\tif !tpl.GetValue(sch, colIdxOfPred).CompareEquals(*scanKey) {", new="\t\tif false && !tpl.GetValue(sch, colIdxOfPred).CompareEquals(*scanKey) {"),
+ "log-wrap-header-lost": dict(file="recovery/log_manager.go", props=["C01"],
+    old="\t\tlogMgr.latch.WLock()\n\t\tcopy(logMgr.logBuffer[logMgr.offset:], logRecord.GetLogHeaderData())\n\t}", new="\t\tlogMgr.latch.WLock()\n\t}"),
  "no-shared-lock-in-heap-gettuple": dict(file="storage/access/table_heap.go", props=["C04", "C05"],
     old="\t\tif !txn.IsSharedLocked(rid) && !txn.IsExclusiveLocked(rid) && !t.lockManager.LockShared(txn, rid) {", new="\t\tif false && !txn.IsSharedLocked(rid) && !txn.IsExclusiveLocked(rid) && !t.lockManager.LockShared(txn, rid) {"),
  "remove-wlatch-updatetuple": dict(file="storage/access/table_heap.go", props=["C19"],
